@@ -52,6 +52,7 @@ HIST = {
  'C18/2': "first run: missed by C18 (caught by C16 through a body with the same helper) -> precision-sensitive integers in the content generators",
  'C04/1': "first run: no-failing-input-found (the RedactTables translator noticed the rewritten match) -> near-miss event types (bare suffixes, case, blanks, other prefixes) in the systematic stream",
  'C13/2': "first run: no-failing-input-found (the defaults obligation broke; the specification read `server-default` off the compiled flag) -> every server-default rule against every edit, and the specification's start state marks rules server-default by origin",
+ 'C07/2': "not visible to C07: auth_types_for_event enters C07's model as an oracle observed per case (the selection is C09's subject); caught by C09 with a failing input",
  'C09/2': "first run: missed by C09 and C08 (no content carried a near-miss spelling of the member) -> near-miss spellings in restricted joins",
  'C02/2': "first run: no-failing-input-found (the model differed; the spec predicate asked for one honest signature per entity only) -> the predicate now requires every supported signature of an entity to be honest",
 }
@@ -76,7 +77,11 @@ for line in open('/var/tmp/seedres/confirmq.log'):
 EXTRA_LAST = {}   # results of runs made directly in /repo (patch applied, check run, patch reverted) after the queue
 if os.path.exists('/var/tmp/seedres/direct4.json'):
     EXTRA_LAST = json.load(open('/var/tmp/seedres/direct4.json'))
+# confirmed when made, but no longer a breaking change on the current tree
+SKIP = {'C17/1': 'the hang it caused went through ruma_common::serde::ignore_invalid_vec_items, whose endless loop was repaired in /repo 9d6b836 (found through this very change: see DESIGN 13.2b); with the repaired helper the demo passes'}
 for key, (change, needs) in sorted(INFO.items()):
+    if key in SKIP:
+        continue
     pid, n = key.split('/')
     have = sorted(int(d.rsplit('-', 1)[1]) for d in glob.glob(f'/verif/seeded/{pid}-*') if not os.path.exists(d + '/.round3'))
     base = max([x for x in have] or [0])
